@@ -51,6 +51,30 @@ func c41Receiver(c *Ctx) {
 		c.Check(c.Const(dp+"hdrLen") == "16" && c.Const(dp+"sigHdrSize") == "16", rule, "header-size", 0,
 			"encoder hdrLen = "+c.Const(dp+"hdrLen")+", receiver sigHdrSize = "+c.Const(dp+"sigHdrSize"))
 	}
+	// one reassembly list per stream epoch: frames of different epochs are never stitched
+	if gv := c.View("(*" + dp + "worker).getRlist"); gv != nil {
+		rule := "H3-one-list-per-epoch"
+		okLookup, okStore, okRet := false, false, true
+		for _, b := range gv.Fn.Blocks {
+			for _, in := range b.Instrs {
+				switch x := in.(type) {
+				case *ssa.Lookup:
+					if gv.S.Sym(x.X) == "recv.rlists" && gv.S.Sym(x.Index) == "arg0" {
+						okLookup = true
+					}
+				case *ssa.MapUpdate:
+					if gv.S.Sym(x.Map) == "recv.rlists" {
+						okStore = gv.S.Sym(x.Key) == "arg0" && strings.HasPrefix(gv.S.Sym(x.Value), dp+"newReassemblyList(arg0, ")
+					}
+				case *ssa.Return:
+					s := gv.S.Sym(x.Results[0])
+					okRet = okRet && strings.Contains(s, "recv.rlists[arg0]") && strings.Contains(s, dp+"newReassemblyList(arg0, ")
+				}
+			}
+		}
+		c.Check(okLookup && okStore && okRet, rule, gv.Name()+":keyed-by-epoch", gv.Fn.Pos(),
+			"returns the list stored under the frame's epoch, creating it for that epoch and under that key if absent")
+	}
 	v := c.View("(*" + dp + "frameBuf).ProcessCompletePkts")
 	if v == nil {
 		return
